@@ -216,6 +216,61 @@ namespace c04
                     xsimd::batch<UI, A> index = from_bytes<xsimd::batch<UI, A>>((const unsigned char*)ix);
                     from_bytes<B>(c.reg_in).scatter((T*)c.p, index); });
             out.back().idx_unsigned = true;
+            // ---------------- the library's accesses interleaved with the caller's own typed accesses to the same array, in one scope
+            add("seq: load_unaligned, t[i] = v, load_unaligned", K_SEQ_LOAD, EL, [](Ctx& c)
+                {
+                    T* t = (T*)c.p;
+                    T v[B::size];
+                    memcpy(v, c.reg_in, sizeof v);
+                    B first = B::load_unaligned(t);
+                    for (size_t i = 0; i < B::size; ++i)
+                        t[i] = v[i];
+                    B second = B::load_unaligned(t);
+                    to_bytes(c.aux, first);
+                    to_bytes(c.reg_out, second); });
+            add("seq: store_unaligned, read t[i]", K_SEQ_STORE, EL, [](Ctx& c)
+                {
+                    T* t = (T*)c.p;
+                    T r[B::size];
+                    for (size_t i = 0; i < B::size; ++i)
+                        r[i] = t[i]; // the caller has looked at the old contents
+                    from_bytes<B>(c.reg_in).store_unaligned(t);
+                    T w[B::size];
+                    for (size_t i = 0; i < B::size; ++i)
+                        w[i] = t[i];
+                    memcpy(c.aux, w, sizeof w);
+                    memcpy(c.aux + sizeof w, r, sizeof r); });
+            add("seq: gather, t[idx] = v, gather", K_SEQ_GATHER, EL, [](Ctx& c)
+                {
+                    T* t = (T*)c.p;
+                    T v[B::size];
+                    memcpy(v, c.reg_in, sizeof v);
+                    I ix[B::size];
+                    for (size_t i = 0; i < B::size; ++i)
+                        ix[i] = (I)c.idx[i];
+                    IB index = from_bytes<IB>((const unsigned char*)ix);
+                    B first = B::gather(t, index);
+                    for (size_t i = 0; i < B::size; ++i)
+                        t[ix[i]] = v[i];
+                    B second = B::gather(t, index);
+                    to_bytes(c.aux, first);
+                    to_bytes(c.reg_out, second); });
+            add("seq: scatter, read t[idx]", K_SEQ_SCATTER, EL, [](Ctx& c)
+                {
+                    T* t = (T*)c.p;
+                    I ix[B::size];
+                    for (size_t i = 0; i < B::size; ++i)
+                        ix[i] = (I)c.idx[i];
+                    IB index = from_bytes<IB>((const unsigned char*)ix);
+                    T r[B::size];
+                    for (size_t i = 0; i < B::size; ++i)
+                        r[i] = t[ix[i]];
+                    from_bytes<B>(c.reg_in).scatter(t, index);
+                    T w[B::size];
+                    for (size_t i = 0; i < B::size; ++i)
+                        w[i] = t[ix[i]];
+                    memcpy(c.aux, w, sizeof w);
+                    memcpy(c.aux + sizeof w, r, sizeof r); });
             // ---------------- lane numbering by-products (no memory access of their own)
             add("batch::broadcast", K_BROADCAST, EL, [](Ctx& c)
                 {
